@@ -10,10 +10,15 @@
 (*   "params"    new Compiler on the process' shared Params object (the    *)
 (*               apps create one Params and call compiler.New per file)    *)
 (*   "compiler"  the process' shared Compiler instance                     *)
+(*   "par"       new Params and Compiler, in a goroutine that runs at the  *)
+(*               same time as the neighbouring "par" operations of its     *)
+(*               process (a server compiling for several sessions)         *)
 (* What must not matter is modelled as hidden state the implementation     *)
 (* keeps: values memoised into the shared Params (memo), packages cached   *)
 (* in the Compiler (cache), and the order maps happen to be iterated in    *)
-(* (order, chosen anew for every operation).  The output of an operation   *)
+(* (order, chosen anew for every operation), and scratch memory of the     *)
+(* process that operations running at the same time would share (scratch). *)
+(* The output of an operation                                              *)
 (* is [prog, sizes, vals, leak]; in the design leak is empty.  The         *)
 (* constants name deviations - each makes one piece of hidden state leak   *)
 (* into the output - and TLC shows that Deterministic then fails.          *)
@@ -21,9 +26,9 @@
 EXTENDS Integers, Sequences, FiniteSets, TLC
 
 CONSTANTS Progs, SizeIds, ValIds, MaxOps, Procs, Orders,
-          LeakMemo, LeakCache, LeakOrder
+          LeakMemo, LeakCache, LeakOrder, LeakScratch
 
-Shares == {"fresh", "params", "compiler"}
+Shares == {"fresh", "params", "compiler", "par"}
 Op == [proc : Procs, share : Shares, prog : Progs, sizes : SizeIds, vals : ValIds]
 
 VARIABLES ops,     \* the history
@@ -37,15 +42,18 @@ Init == /\ ops = <<>> /\ outs = <<>>
         /\ cache = [p \in Procs |-> [v \in ValIds |-> {}]]
 
 Leak(o, ord) ==
-    (IF LeakMemo /\ o.share # "fresh" THEN {<<"memo", memo[o.proc][o.vals]>>} ELSE {})
+    (IF LeakMemo /\ o.share \in {"params", "compiler"} THEN {<<"memo", memo[o.proc][o.vals]>>} ELSE {})
     \cup (IF LeakCache /\ o.share = "compiler" THEN {<<"cache", cache[o.proc][o.vals]>>} ELSE {})
     \cup (IF LeakOrder THEN {<<"order", ord>>} ELSE {})
+    \* a concurrent operation sees what its neighbour of the same process left in process-wide scratch memory
+    \cup (IF LeakScratch /\ o.share = "par" /\ Len(ops) > 0 /\ ops[Len(ops)].share = "par" /\ ops[Len(ops)].proc = o.proc
+          THEN {<<"scratch", ops[Len(ops)].prog, ops[Len(ops)].sizes>>} ELSE {})
 
 Compile(o, ord) ==
     /\ Len(ops) < MaxOps
     /\ ops' = Append(ops, o)
     /\ outs' = Append(outs, [prog |-> o.prog, sizes |-> o.sizes, vals |-> o.vals, leak |-> Leak(o, ord)])
-    /\ memo' = IF o.share = "fresh" THEN memo
+    /\ memo' = IF o.share \in {"fresh", "par"} THEN memo
                ELSE [memo EXCEPT ![o.proc][o.vals] = @ \cup {<<o.prog, o.sizes>>}]
     /\ cache' = IF o.share = "compiler" THEN [cache EXCEPT ![o.proc][o.vals] = @ \cup {o.prog}] ELSE cache
 
